@@ -3858,10 +3858,13 @@ type enterFuncBody struct {
 	funcType    funcType
 	extensible  bool
 	adjustStack bool
+	// the scope is subject to dynamic lookup (e.g. contains a direct eval): the compiler counts it
+	// as a stash level even if it has no bindings, so the stash must be created
+	dynLookup bool
 }
 
 func (e *enterFuncBody) exec(vm *vm) {
-	if e.stashSize > 0 || e.extensible {
+	if e.stashSize > 0 || e.extensible || e.dynLookup {
 		vm.newStash()
 		stash := vm.stash
 		stash.funcType = e.funcType
